@@ -401,16 +401,30 @@ func (p *Prog) Variant(level int) *Prog {
 	for _, sp := range spkgs {
 		all = append(all, SSAPkgFuncs(prog, sp)...)
 	}
+	// an instance of a generic function stands for its origin (instances are concrete bodies)
+	origin := func(f *ssa.Function) *ssa.Function {
+		if f != nil && f.Origin() != nil && len(f.TypeArgs()) > 0 {
+			return f.Origin()
+		}
+		return f
+	}
+	plainOrInstance := func(f *ssa.Function) bool {
+		return f.Synthetic == "" || (f.Origin() != nil && len(f.TypeArgs()) > 0)
+	}
 	isNewHelper := func(f *ssa.Function) bool {
-		return f != nil && f.Parent() == nil && f.Blocks != nil && f.Object() != nil && !f.Object().Exported() && f.Synthetic == "" &&
-			f.Name() != "init" && f.Name() != "main" && !mayBeInvoked(f) && (IgnoreBaseline || !baselineFuncs[FuncName(f)])
+		if f == nil || f.Parent() != nil || f.Blocks == nil || !plainOrInstance(f) {
+			return false
+		}
+		o := origin(f)
+		return o.Object() != nil && !o.Object().Exported() &&
+			o.Name() != "init" && o.Name() != "main" && !mayBeInvoked(o) && (IgnoreBaseline || !baselineFuncs[FuncName(o)])
 	}
 	// `defer h(args)` / `go h(args)` of a new helper become deferred / spawned closures with h inlined
 	closureized := map[*ssa.Function]bool{}
 	for round := 0; round < 3; round++ { // the closures made in one round may contain further such calls
 		n := 0
 		for _, f := range all {
-			for _, g := range ssa.ClosureizeDeferAndGo(f, func(callee *ssa.Function) bool { return callee.Pkg == f.Pkg && isNewHelper(callee) }) {
+			for _, g := range ssa.ClosureizeDeferAndGo(f, func(callee *ssa.Function) bool { return origin(callee).Pkg == f.Pkg && isNewHelper(callee) }) {
 				closureized[g] = true
 				n++
 			}
@@ -440,7 +454,7 @@ func (p *Prog) Variant(level int) *Prog {
 				if c, ok := in.(ssa.CallInstruction); ok {
 					callee = c.Common().StaticCallee()
 					if callee != nil {
-						if _, plain := in.(*ssa.Call); plain && callee.Pkg == f.Pkg {
+						if _, plain := in.(*ssa.Call); plain && origin(callee).Pkg == f.Pkg {
 							if _, viaClosure := c.Common().Value.(*ssa.MakeClosure); !viaClosure {
 								get(callee).calls++
 							} else {
@@ -485,10 +499,11 @@ func (p *Prog) Variant(level int) *Prog {
 		return n
 	}
 	candidate := func(f *ssa.Function) bool {
-		if f == nil || f.Parent() != nil || f.Blocks == nil || f.Object() == nil || f.Object().Exported() || f.Synthetic != "" {
+		if f == nil || f.Parent() != nil || f.Blocks == nil || !plainOrInstance(f) {
 			return false
 		}
-		if f.Name() == "init" || f.Name() == "main" || mayBeInvoked(f) {
+		o := origin(f)
+		if o.Object() == nil || o.Object().Exported() || o.Name() == "init" || o.Name() == "main" || mayBeInvoked(o) {
 			return false
 		}
 		// Only helpers that did not exist on the tree the rule tables were
@@ -496,7 +511,7 @@ func (p *Prog) Variant(level int) *Prog {
 		// structure (by role), so inlining its helpers would remove the anchors,
 		// while a helper extracted since then hides the shape the rules look for.
 		// The list only steers this normalisation; it never decides a verdict.
-		if baselineFuncs[FuncName(f)] && !IgnoreBaseline {
+		if baselineFuncs[FuncName(o)] && !IgnoreBaseline {
 			return false
 		}
 		u := uses[f]
@@ -521,7 +536,7 @@ func (p *Prog) Variant(level int) *Prog {
 	helperPass := func() {
 		for _, f := range all {
 			got := ssa.InlineStaticCalls(f, func(site *ssa.Call, callee *ssa.Function) bool {
-				return callee.Pkg == f.Pkg && candidate(callee)
+				return origin(callee).Pkg == f.Pkg && candidate(callee)
 			}, 4)
 			for _, g := range got {
 				inlined[g] = true
@@ -557,7 +572,7 @@ func (p *Prog) Variant(level int) *Prog {
 		}
 		// `x.m` used as a function value, m a new method: the wrapper becomes m's body over the receiver.
 		for _, f := range all {
-			for _, g := range ssa.InlineBoundMethods(f, func(m *ssa.Function) bool { return m.Pkg == f.Pkg && isNewHelper(m) }) {
+			for _, g := range ssa.InlineBoundMethods(f, func(m *ssa.Function) bool { return origin(m).Pkg == f.Pkg && isNewHelper(m) }) {
 				inlined[g] = true
 			}
 		}
